@@ -626,7 +626,12 @@ func mergeClientConfigByProfile(dst, src *pb.ClientConfig) {
 	}
 	var advancedSettings *pb.ClientAdvancedSettings = dst.AdvancedSettings
 	if src.AdvancedSettings != nil {
-		advancedSettings = src.AdvancedSettings
+		// Members of the advanced settings that the patch doesn't set keep their values.
+		advancedSettings = &pb.ClientAdvancedSettings{}
+		if dst.AdvancedSettings != nil {
+			proto.Merge(advancedSettings, dst.AdvancedSettings)
+		}
+		proto.Merge(advancedSettings, src.AdvancedSettings)
 	}
 	var socks5ListenLAN *bool = dst.Socks5ListenLAN
 	if src.Socks5ListenLAN != nil {
